@@ -1,7 +1,7 @@
 (* WeightChoice.v — C19, last clause at the level of the weights: choice_weighted returns an option whose WEIGHT is
    positive (not only its integer increment), and the progressive decider never returns a production whose declared
    weight is zero while the integer total of the weights it hands to choice_weighted is positive. *)
-From GE Require Import Base Tape Grammar WellTyped Synth TapeProofs.
+From GE Require Import Base Tape Grammar WellTyped Synth TapeProofs RegProofs DistProofs.
 Open Scope Z_scope.
 
 Lemma accumulate_length ws : forall a, length (accumulate a ws) = length ws.
@@ -96,17 +96,16 @@ Qed.
    non-zero declared weight — in particular when the depth heuristic is zero everywhere and the production weights alone decide *)
 Theorem prog_zero_weight_never g key alts ctx st x st' :
   choose g DProg key alts ctx st = (Ok x, st') ->
-  exists target ws, prog_final_weights g target ctx alts = Ok ws /\
+  exists target ws, prog_target g = Ok target /\ prog_final_weights g target ctx alts = Ok ws /\
     ((forall q, In q ws -> (0 <= q)%Q) -> forall total, last_error (acc_weights ws) = Some total -> 0 < total ->
      ~ (prod_weight g x == 0)%Q).
 Proof.
   unfold choose. destruct alts as [|a0 t0]; [discriminate|]. remember (a0 :: t0) as alts.
-  unfold bindM, lift. destruct (max_node_depth g) as [mx|]; [|discriminate].
-  destruct (if mx =? INF then _ else _) as [target|]; [|discriminate].
+  unfold bindM, lift. destruct (prog_target g) as [target|] eqn:Etg; [|discriminate].
   destruct (prog_final_weights g target ctx alts) as [ws|] eqn:Ew; [|discriminate].
   unfold on_src. destruct (choice_weighted (st_src st) alts ws) as [[y s1]|] eqn:Ec; [|discriminate].
   intro H. inversion H; subst y st'. clear H.
-  exists target, ws. split; [exact Ew|]. intros Hnn total Hl Ht Hz.
+  exists target, ws. split; [reflexivity|]. split; [exact Ew|]. intros Hnn total Hl Ht Hz.
   destruct (choice_weighted_pick_positive _ _ _ _ _ total Ec ltac:(symmetry; eapply prog_final_length; eauto) Hnn Hl Ht) as [i [q [Hx [Hq Hpos]]]].
   destruct (prog_final_nth _ _ _ _ _ Ew i x q Hx Hq) as [[h ->]| ->].
   - rewrite Hz in Hpos. ring_simplify in Hpos. exact (Qlt_irrefl 0 Hpos).
@@ -146,9 +145,39 @@ Qed.
 (* the decider-level statement without a hypothesis on the intermediate weights *)
 Theorem prog_zero_weight_never' g key alts ctx st x st' :
   choose g DProg key alts ctx st = (Ok x, st') -> 0 <= c_depth ctx -> (forall y, (0 <= prod_weight g y)%Q) ->
-  exists target ws, prog_final_weights g target ctx alts = Ok ws /\
+  exists target ws, prog_target g = Ok target /\ prog_final_weights g target ctx alts = Ok ws /\
     (0 <= target -> forall total, last_error (acc_weights ws) = Some total -> 0 < total -> ~ (prod_weight g x == 0)%Q).
 Proof.
-  intros H Hd Hp. destruct (prog_zero_weight_never g key alts ctx st x st' H) as [target [ws [Hw Hz]]].
-  exists target, ws. split; [exact Hw|]. intros Ht total Hl Htot. apply (Hz (prog_final_nonneg g target ctx alts ws Ht Hd Hp Hw) total Hl Htot).
+  intros H Hd Hp. destruct (prog_zero_weight_never g key alts ctx st x st' H) as [target [ws [Htg [Hw Hz]]]].
+  exists target, ws. split; [exact Htg|]. split; [exact Hw|]. intros Ht total Hl Htot. apply (Hz (prog_final_nonneg g target ctx alts ws Ht Hd Hp Hw) total Hl Htot).
+Qed.
+
+(* for an analysed grammar (default depth mode) the target depth is non-negative *)
+Lemma prog_target_nonneg d order g : d_xdepth d = false -> perm_order order -> analyse d order = Ok g ->
+  forall t, prog_target g = Ok t -> 0 <= t.
+Proof.
+  intros Hxd Hperm Han t H. unfold prog_target in H.
+  assert (Hnn : forall s, 0 <= match dget (g_dist g) s with Some v => v | None => INF end).
+  { intro s. destruct (dget (g_dist g) s) as [v|] eqn:E; [exact (df_nonneg d order g Hxd Hperm Han s v E)|unfold INF; lia]. }
+  unfold max_node_depth in H. destruct (r_nodes (g_reg g)) as [|s0 rest]; cbn [map bind] in H; [discriminate|].
+  set (mx := zmax_l _ _) in H.
+  assert (Hmx : 0 <= mx).
+  { unfold mx. destruct (zmax_l_ge (match dget (g_dist g) s0 with Some v => v | None => INF end)
+                                   (map (fun s => match dget (g_dist g) s with Some v => v | None => INF end) rest)) as [A _].
+    specialize (Hnn s0). lia. }
+  destruct (mx =? INF); [|inversion H; subst; exact Hmx].
+  unfold min_tree_depth, dist_of in H. destruct (dget (g_dist g) (SC (d_start (g_decl g)))) as [mn|] eqn:Em; cbn [bind] in H; [|discriminate].
+  inversion H; subst. pose proof (df_nonneg d order g Hxd Hperm Han _ _ Em). unfold zlen. nia.
+Qed.
+
+(* ProgressivelyTerminalDecider on an analysed grammar: non-negative production weights and a positive integer total suffice *)
+Theorem prog_respects_weights_analysed d order g key alts ctx st x st' :
+  d_xdepth d = false -> perm_order order -> analyse d order = Ok g ->
+  choose g DProg key alts ctx st = (Ok x, st') -> 0 <= c_depth ctx -> (forall y, (0 <= prod_weight g y)%Q) ->
+  exists target ws, prog_final_weights g target ctx alts = Ok ws /\
+    (forall total, last_error (acc_weights ws) = Some total -> 0 < total -> ~ (prod_weight g x == 0)%Q).
+Proof.
+  intros Hxd Hperm Han H Hd Hp.
+  destruct (prog_zero_weight_never' g key alts ctx st x st' H Hd Hp) as [target [ws [Htg [Hw Hz]]]].
+  exists target, ws. split; [exact Hw|]. apply Hz. exact (prog_target_nonneg d order g Hxd Hperm Han target Htg).
 Qed.
